@@ -20,10 +20,11 @@ Open Scope Z_scope.
 (* ---------------------------------------------------------------------- *)
 (* Edit state: default_buffer.text / cursor_position, app.quoted_insert *)
 
-Record estate := mkE { etext : str; ecur : nat; equoted : bool; unmod : bool }.
-Definition e_init : estate := mkE [] O false false.
+Record estate := mkE { etext : str; ecur : nat; equoted : bool; unmod : bool;
+                         eextra : bool   (* the session was created with the user binding ('c-c', 'c-c') *) }.
+Definition e_init (x : bool) : estate := mkE [] O false false x.
 (* PromptSession.prompt(): default_buffer.reset(); app.quoted_insert is not reset *)
-Definition e_restart (e : estate) : estate := mkE [] O (equoted e) (unmod e).
+Definition e_restart (e : estate) : estate := mkE [] O (equoted e) (unmod e) (eextra e).
 
 Inductive result := RText (t : str) | REof | RInt.
 
@@ -82,10 +83,12 @@ Fixpoint best (cands : list (Z * row)) (cur : option (Z * row)) : option (Z * ro
 
 Fixpoint number {T} (i : Z) (l : list T) : list (Z * T) :=
   match l with [] => [] | x :: r => (i, x) :: number (i + 1) r end.
-Definition rows : list (Z * row) := number 0 c17_bindings.
+Definition rows0 : list (Z * row) := number 0 c17_bindings.
+Definition rows1 : list (Z * row) := number 0 (c17_bindings ++ c17_extra_rows).
+Definition rows_of (e : estate) : list (Z * row) := if eextra e then rows1 else rows0.
 
 Definition exact_matches (e : estate) (ks : list kp) : list (Z * row) :=
-  filter (fun ir => active e (snd ir) && pmatches (r_pats (snd ir)) ks) rows.
+  filter (fun ir => active e (snd ir) && pmatches (r_pats (snd ir)) ks) (rows_of e).
 Definition to_bid (o : option (Z * row)) : option bid :=
   match o with Some (i, r) => Some (i, r_eff r) | None => None end.
 
@@ -97,9 +100,18 @@ Definition e_lookup (e : estate) (ks : list kp) : option bid :=
   | [] => to_bid (best m None)
   | em => to_bid (best em None)
   end.
+(* _handle_cpr_response: for binding in reversed(get_bindings_for_keys((CPRResponse,))):
+   the first with binding.keys == (CPRResponse,) and an active filter *)
+Definition e_cpr_lookup (e : estate) : option bid :=
+  match rev (filter (fun ir => active e (snd ir) &&
+                               match r_pats (snd ir) with [p] => p =? c17_key_CPRResponse | _ => false end) (rows_of e)) with
+  | (i, r) :: _ => Some (i, r_eff r)
+  | [] => None
+  end.
+
 Definition e_waits (e : estate) (ks : list kp) : bool :=
   match filter (fun ir => eager e (snd ir)) (exact_matches e ks) with
-  | [] => existsb (fun ir => active e (snd ir) && pprefix (r_pats (snd ir)) ks) rows
+  | [] => existsb (fun ir => active e (snd ir) && pprefix (r_pats (snd ir)) ks) (rows_of e)
   | _ => false
   end.
 
@@ -107,9 +119,9 @@ Definition e_waits (e : estate) (ks : list kp) : bool :=
 (* Handlers (single-line text; event.arg = 1) *)
 
 Definition ins (d : str) (e : estate) : estate :=
-  mkE (firstn (ecur e) (etext e) ++ d ++ skipn (ecur e) (etext e)) (ecur e + length d) (equoted e) (unmod e).
-Definition set_cur (n : nat) (e : estate) : estate := mkE (etext e) n (equoted e) (unmod e).
-Definition set_text_cur (t : str) (n : nat) (e : estate) : estate := mkE t n (equoted e) (unmod e).
+  mkE (firstn (ecur e) (etext e) ++ d ++ skipn (ecur e) (etext e)) (ecur e + length d) (equoted e) (unmod e) (eextra e).
+Definition set_cur (n : nat) (e : estate) : estate := mkE (etext e) n (equoted e) (unmod e) (eextra e).
+Definition set_text_cur (t : str) (n : nat) (e : estate) : estate := mkE t n (equoted e) (unmod e) (eextra e).
 
 Definition is_wordc (c : Z) : bool :=
   ((97 <=? c) && (c <=? 122)) || ((65 <=? c) && (c <=? 90)) || ((48 <=? c) && (c <=? 57)) || (c =? 95).
@@ -161,11 +173,11 @@ Definition e_eff (b : bid) (ks : list kp) (e : estate) : estate * option result 
   | 13 => (e, Some (RText t))
   | 14 => (e, Some RInt)
   | 15 => (e, Some REof)
-  | 16 => (mkE t c true (unmod e), None)
-  | 17 => (let e1 := ins (data_of ks) e in mkE (etext e1) (ecur e1) false (unmod e1), None)
+  | 16 => (mkE t c true (unmod e) (eextra e), None)
+  | 17 => (let e1 := ins (data_of ks) e in mkE (etext e1) (ecur e1) false (unmod e1) (eextra e1), None)
   | 18 => (ins (crlf (data_of ks)) e, None)
   | 19 => (e, None)
-  | _ => (mkE t c (equoted e) true, None)
+  | _ => (mkE t c (equoted e) true (eextra e), None)
   end.
 Definition e_is_cprh (b : bid) : bool := snd b =? 19.
 
@@ -179,6 +191,6 @@ Definition e_pflush (p : pstate) : pstate * list kp := let p' := flush p in (p',
 
 Definition esys := sys estate bid result pstate.
 Definition e_step : esys -> label -> esys :=
-  @step estate bid result pstate e_lookup e_lookup_scan e_waits e_eff e_is_cprh e_restart e_pfeed e_pflush REof.
+  @step estate bid result pstate e_lookup e_lookup_scan e_waits e_eff e_is_cprh e_cpr_lookup e_restart e_pfeed e_pflush REof.
 Definition e_run (ls : list label) (s : esys) : esys := fold_left e_step ls s.
-Definition e_init_sys (r : bool) : esys := @init estate bid result pstate e_init Model.C03_Vt100Parser.init r.
+Definition e_init_sys (r x : bool) : esys := @init estate bid result pstate (e_init x) Model.C03_Vt100Parser.init r.
